@@ -80,13 +80,13 @@ def run(chk):
     for E in LOADERS:
         f = prog.func(f"{RD}:{E}")
         chk.analysed(f)
-        loader(chk, f, E, mol, ens)
+        chk.call(loader, chk, f, E, mol, ens)
     for E in ("dump", "dumps"):
         f = prog.func(f"{WR}:{E}")
         chk.analysed(f)
-        dumper(chk, f, E, mol, ens)
-    r6_stream(chk, prog.func(f"{WR}:dump"))
-    r3_class_wrappers(chk, ens)
+        chk.call(dumper, chk, f, E, mol, ens)
+    chk.call(r6_stream, chk, prog.func(f"{WR}:dump"))
+    chk.call(r3_class_wrappers, chk, ens)
 
 
 def _dispatch(chk, f, fmt_table):
